@@ -200,10 +200,12 @@ def run(chk):
     env_io["Path"] = MPath
     picks = [x for x in model_circuits() if x[0] in ("reconv", "blackbox", "xnor3", "output-is-input-and-gate-mix")]
     for name, c, bbs in picks:
-        for path, wfmt, rfmt, beh in ((f"/mem/{c.name}.v", "verilog", None, False), (f"/mem/{c.name}.v", "verilog", None, True), (f"/mem/{c.name}.txt", "verilog", "verilog", False)):
+        for path, wfmt, rfmt, beh in ((f"/mem/{c.name}.v", "verilog", None, False), (f"/mem/{c.name}.v", "verilog", None, True), (f"/mem/{c.name}.txt", "verilog", "verilog", False),
+                                      # the file is not named after the module: from_file(path) infers the module and must keep *its* name
+                                      (f"/mem/saved_copy_of_it.v", "verilog", None, False), (f"/mem/dir.d/{c.name}_2.v", "verilog", None, True)):
             r = P.call(FILE, "to_file", c, path, wfmt, beh)
             n += 1
-            key = f"file::{name}::{path.rsplit('.', 1)[1]}::{'assign' if beh else 'primitives'}"
+            key = f"file::{name}::{path.rsplit('/', 1)[1].replace(c.name, '<name>')}::{'assign' if beh else 'primitives'}"
             if r[0] != "return" or path not in fs.files:
                 chk.ob("C03.F.files", key, False, file=FILE, func="to_file", fact={"result": str(r)[:160]})
                 continue
